@@ -178,8 +178,9 @@ class ProgGen:
                 name = spare[self.ndef % len(spare)] + str(self.ndef)
             else:
                 name = f"nu{self.ndef}"
-            canon = {p + u for p in self.table.prefixes for u in self.table.order}
-            if name in self.table.unit_spellings() or name in canon:
+            # (a run-time definition may take the canonical name prefix name + unit name of an implicitly
+            # registered unit - finding R10, repaired; the static table of a generated world never does)
+            if name in self.table.unit_spellings():
                 name = f"nu{self.ndef}"
             form = rng.random()
             if form < 0.5:
